@@ -10,6 +10,8 @@ sys.path.insert(0, HERE)
 
 SETUP = ("/venv/bin/python -c 'import hypothesis' 2>/dev/null || "
          "/venv/bin/pip install --no-index --find-links /opt/veriftools/wheels --target /verif/.deps hypothesis sortedcontainers attrs; "
+         "/venv/bin/python -c 'import sys; sys.path.append(\"/verif/.deps\"); import atheris' 2>/dev/null || "
+         "/venv/bin/pip install --no-index --find-links /opt/veriftools/wheels --target /verif/.deps atheris || true; "
          "/venv/bin/python -c 'import sys; sys.path.append(\"/verif/.deps\"); import hypothesis; print(\"hypothesis\", hypothesis.__version__)'")
 
 ALL = ['C%02d' % i for i in range(1, 21)]
